@@ -49,6 +49,14 @@ impl Ctx {
             h.sign(&key.primary_key, &Password::empty()).ok()
         });
         match r { Ok(Some(s)) => detached.push(("hasher", s)), _ => results.push(("sign:hasher".into(), false)) }
+        // --- the payload given to the signing interfaces as a READER that returns short reads (a pipe, a chained reader)
+        for (tag, sched) in [("reader-1", vec![1usize]), ("reader-3-1", vec![3, 1]), ("reader-half", vec![payload.len() / 2 + 1])] {
+            let r = guarded(|| {
+                let rd = SchedReader::new(payload.to_vec(), sched.clone());
+                if text { DetachedSignature::sign_text_data(Rng::new(3), &key.primary_key, &Password::empty(), hash, rd) } else { DetachedSignature::sign_binary_data(Rng::new(3), &key.primary_key, &Password::empty(), hash, rd) }.ok().map(|d| d.signature)
+            });
+            match r { Ok(Some(s)) => detached.push((tag, s)), _ => results.push((format!("sign:{tag}"), false)) }
+        }
         // --- verify interfaces for bare signatures
         for (name, sig) in &detached {
             let src = self.rng.composition(payload.len());
